@@ -1627,3 +1627,9 @@ func (fr *frame) ReturnVals() [][]Val {
 
 // Reached reports whether instr was reached in the final round.
 func (fr *frame) Reached(instr ssa.Instruction) bool { return fr.reached[instr] }
+
+// ResetHeap forgets everything stored so far.
+func (in *Interp) ResetHeap() {
+	in.heap = map[string]Val{}
+	in.heapGen++
+}
